@@ -1,8 +1,9 @@
 import AwsVerif.Proofs.C20.Count
+import AwsVerif.Proofs.C20.Refs
 namespace AwsVerif.Threads
 
 theorem otherRel_code {s : State} {k : Nat} {a b : Th} (h : OtherRel s k a b) : b.code = a.code ∨ b.code = [] := by
-  rcases h with rfl | rfl | ⟨_, rfl⟩ | ⟨_, rfl⟩ <;> simp
+  rcases h with rfl | rfl | ⟨_, _, rfl⟩ | ⟨_, rfl⟩ <;> simp
 
 /-- membership-style side conditions -/
 structure Memb (P : Prog) (s : State) : Prop where
@@ -123,6 +124,7 @@ theorem exec_countEq (P : Prog) (s s' : State) (t : Nat) (i : Instr) (rest : Lis
     (hbig : ∀ k, P.n ≤ k → (s.th k).status = .notCreated)
     (hnc : ∀ k, (s.th k).status = .notCreated → (s.th k).code = [])
     (hm : Memb P s) (hsufAll : ∀ k, sufOk P (s.th k).code)
+    (hcopy : ∀ k, Instr.joinM k ∈ (s.th t).code → (s.th k).copyId = some k)
     (h : exec P s t i rest = some s') (hE : CountEq P s) : CountEq P s' := by
   have hsuf := hsufAll t
   have mjt := hm.mj t; have hut := hm.hu t
@@ -154,7 +156,7 @@ theorem exec_countEq (P : Prog) (s s' : State) (t : Nat) (i : Instr) (rest : Lis
         simp [wPlus, wMinus, hc, cPlus, cMinus, iPlus, iMinus, Ne.symm hjt]
     · refine countEq_upd1 P s _ t _ hE ht rfl ?_
       simp [wPlus, wMinus, hc, cPlus, cMinus, iPlus, iMinus]
-  case create k pin nf =>
+  case create k pin nf nm =>
     simp only [exec] at h
     split at h
     · simp only [Option.some.injEq] at h; subst h
@@ -178,7 +180,7 @@ theorem exec_countEq (P : Prog) (s s' : State) (t : Nat) (i : Instr) (rest : Lis
           isLive_notCreated, isLive_created]
         by_cases hmk : P.managed k = true <;> simp [hmk] <;> omega
   case joinM k =>
-    simp only [exec] at h
+    simp only [exec, hcopy k (by rw [hc]; simp), if_true] at h
     split at h
     · rename_i hg
       obtain ⟨hs0, htk⟩ := hg
